@@ -151,7 +151,7 @@ func (g *gen) selection(typeName string, depth int, entityTop bool) []*node {
 	if def == nil {
 		return out
 	}
-	maxDepth := 4
+	maxDepth := 5
 	switch def.Kind {
 	case gast.Object, gast.Interface:
 		if g.chance(0.25) || (def.Kind == gast.Interface && g.chance(0.5)) {
